@@ -182,19 +182,34 @@ Qed.
 Lemma sview_app l x : sview (l ++ [x]) = sview l ++ [(fst x, map_events (snd x))].
 Proof. unfold sview. rewrite map_app. reflexivity. Qed.
 
+(* a change of interest: the monitor remembers the modification (and the mask before it) as its last event *)
+Lemma CplR_poll_set_ld e f old s :
+  alive_s s e = true -> mask_ok e (map_events f) = true -> alookup ent_eqb e (socks s) = Some old -> fl_eqb old f = false -> CplR s ->
+  exists m, rmon_run (trace (poll_set e f s)) = Some m /\ relR m (poll_set e f s) /\ r_lastdel m = Some (CMod, e, map_events old).
+Proof.
+  intros Al Mk E Ne [m [A R]]. unfold poll_set. rewrite E, Ne.
+  pose proof (r_alive_rel m s e R) as Ra. rewrite Al in Ra.
+  pose proof (reg_rel idl m s e R) as Rl. rewrite E in Rl. cbn [option_map] in Rl.
+  exists (r_setreg (aset ent_eqb e (map_events f) (r_reg m)) (Some (CMod, e, map_events old)) m).
+  assert (forall sel', let s' := set_selected sel' (log (EvCtl CMod e (map_events f)) (set_socks (aset ent_eqb e f (socks s)) s)) in
+            rmon_run (trace s') = Some (r_setreg (aset ent_eqb e (map_events f) (r_reg m)) (Some (CMod, e, map_events old)) m) /\
+            relR (r_setreg (aset ent_eqb e (map_events f) (r_reg m)) (Some (CMod, e, map_events old)) m) s') as K.
+  { intros sel' s'. subst s'. sproj. unfold rmon_run in *. cbn [mon_run]. rewrite A. cbn [rmon_step]. rewrite Rl, Ra, Mk. cbn [andb].
+    split; [reflexivity|].
+    destruct R as (R1 & R2 & R3 & R4 & R5 & R6). unfold relRg. destruct m; cbn in *. repeat split; auto.
+    rewrite R6. unfold sview. apply (aset_map_snd ent_eqb map_events e f). }
+  cbn zeta. destruct (alookup ent_eqb e (selected (log _ _))) as [sel|] eqn:Es; [destruct (fl_is_none _)|].
+  - destruct (K (aremove ent_eqb e (selected (log (EvCtl CMod e (map_events f)) (set_socks (aset ent_eqb e f (socks s)) s))))) as [K1 K2]. auto.
+  - destruct (K (aset ent_eqb e (fl_diff sel (fl_diff old f)) (selected (log (EvCtl CMod e (map_events f)) (set_socks (aset ent_eqb e f (socks s)) s))))) as [K1 K2]. auto.
+  - destruct (K (selected s)) as [K1 K2]. split; [exact K1|]. split; [|reflexivity]. exact K2.
+Qed.
+
 Lemma CplR_poll_set e f s : alive_s s e = true -> mask_ok e (map_events f) = true -> CplR s -> CplR (poll_set e f s).
 Proof.
-  intros Al Mk H. unfold poll_set. destruct (alookup ent_eqb e (socks s)) as [old|] eqn:E.
-  - destruct (fl_eqb old f); [exact H|].
-    assert (CplR (log (EvCtl CMod e (map_events f)) (set_socks (aset ent_eqb e f (socks s)) s))) as H1.
-    { destruct H as [m [A R]]. pose proof (r_alive_rel m s e R) as Ra. rewrite Al in Ra.
-      pose proof (reg_has_rel idl m s e (fun _ => true) R) as Rh. rewrite E in Rh.
-      exists (r_setreg (aset ent_eqb e (map_events f) (r_reg m)) None m). sproj. unfold rmon_run in *. cbn [mon_run]. rewrite A.
-      cbn [rmon_step]. rewrite Ra, Rh, Mk. cbn [andb]. split; [reflexivity|].
-      destruct R as (R1 & R2 & R3 & R4 & R5 & R6). unfold relRg. destruct m; cbn in *. repeat split; auto.
-      rewrite R6. unfold sview. apply (aset_map_snd ent_eqb map_events e f). }
-    cbn zeta. destruct (alookup ent_eqb e (selected (log _ _))); [destruct (fl_is_none _)|]; auto with cplR.
-  - destruct H as [m [A R]]. pose proof (r_alive_rel m s e R) as Ra. rewrite Al in Ra.
+  intros Al Mk H. destruct (alookup ent_eqb e (socks s)) as [old|] eqn:E.
+  - destruct (fl_eqb old f) eqn:Ne; [unfold poll_set; rewrite E, Ne; exact H|].
+    destruct (CplR_poll_set_ld e f old s Al Mk E Ne H) as [m [A [R _]]]. exists m. auto.
+  - unfold poll_set. rewrite E. destruct H as [m [A R]]. pose proof (r_alive_rel m s e R) as Ra. rewrite Al in Ra.
     pose proof (reg_has_rel idl m s e (fun _ => true) R) as Rh. rewrite E in Rh.
     exists (r_setreg (r_reg m ++ [(e, map_events f)]) None m). sproj. unfold rmon_run in *. cbn [mon_run]. rewrite A.
     cbn [rmon_step]. rewrite Ra, Rh, Mk. cbn [andb negb]. split; [reflexivity|].
@@ -205,11 +220,11 @@ Qed.
 (* the monitor after a removal remembers it as its last event *)
 Lemma CplR_poll_remove_ld fc e g s :
   alookup ent_eqb e (socks s) = Some g -> CplRg fc s ->
-  exists m, rmon_run (trace (poll_remove e s)) = Some m /\ relRg fc m (poll_remove e s) /\ r_lastdel m = Some (e, map_events g).
+  exists m, rmon_run (trace (poll_remove e s)) = Some m /\ relRg fc m (poll_remove e s) /\ r_lastdel m = Some (CDel, e, map_events g).
 Proof.
   intros E [m [A R]]. unfold poll_remove. rewrite E.
   pose proof (reg_rel fc m s e R) as Rl. rewrite E in Rl. cbn [option_map] in Rl.
-  exists (r_setreg (aremove ent_eqb e (r_reg m)) (Some (e, map_events g)) m). sproj. unfold rmon_run in *. cbn [mon_run]. rewrite A.
+  exists (r_setreg (aremove ent_eqb e (r_reg m)) (Some (CDel, e, map_events g)) m). sproj. unfold rmon_run in *. cbn [mon_run]. rewrite A.
   cbn [rmon_step]. rewrite Rl. split; [reflexivity|].
   destruct R as (R1 & R2 & R3 & R4 & R5 & R6). unfold relRg. destruct m; cbn in *. repeat split; auto.
   rewrite R6. unfold sview. apply (aremove_map_snd ent_eqb map_events e).
@@ -445,7 +460,7 @@ Proof.
   - (* ARmEstab *) destruct (zmem i (estabs s)) eqn:E; [|auto with cplR]. apply CplR_estab_remove; assumption.
   - (* AWrite *) destruct (live_client i s) as [c|] eqn:E0; [apply live_client_some in E0; destruct E0 as [E Er]|auto with cplR].
     pose proof (alive_client s i c E Er) as Al.
-    destruct (n <? 1); [auto with cplR|]. destruct (c_back c =? 0).
+    destruct (n <? 0); [auto with cplR|]. destruct (c_back c =? 0).
     + cbn zeta. set (r := send_result n (next_send n s)).
       assert (CplR (log (EvSend i n r false) (drop_send s))) as H1
         by (eapply CplR_log_alive; [reflexivity | exact Al | auto with cplR]).
@@ -502,13 +517,19 @@ Proof.
   rewrite (r_alive_rel m s _ R), Al, (reg_has_rel idl m s _ _ R), Eg, has_in_R by (left; exact Hr). reflexivity.
 Qed.
 
-Lemma CplR_callback_write i s :
-  SInv s -> alive_s s (Cl i) = true -> alookup ent_eqb (Cl i) (socks s) <> None -> CplR s -> CplR (callback (Cl i) KWrite s).
+Lemma fl_eqb_fW a b : fW a = true -> fW b = false -> fl_eqb a b = false.
+Proof. intros A B. unfold fl_eqb. rewrite A, B. destruct (fR a), (fR b); reflexivity. Qed.
+
+(* the write interest is withdrawn and onWrite is called *)
+Lemma CplR_set_write i g f' s :
+  SInv (poll_set (Cl i) f' s) -> alive_s s (Cl i) = true -> alookup ent_eqb (Cl i) (socks s) = Some g -> fW g = true -> fW f' = false ->
+  mask_ok (Cl i) (map_events f') = true -> CplR s -> CplR (callback (Cl i) KWrite (poll_set (Cl i) f' s)).
 Proof.
-  intros HI Al Eg H. unfold callback. apply CplR_run_script; [apply SInv_log; exact HI|].
-  apply CplR_log_step; [|exact H]. intros m R. cbn [rmon_step].
-  rewrite (r_alive_rel m s _ R), Al, (reg_has_rel idl m s _ _ R).
-  destruct (alookup ent_eqb (Cl i) (socks s)); [reflexivity | congruence].
+  intros HI Al Eg Hw Hw' Mk H. unfold callback. apply CplR_run_script; [apply SInv_log; exact HI|].
+  destruct (CplR_poll_set_ld (Cl i) f' g s Al Mk Eg (fl_eqb_fW g f' Hw Hw') H) as [m [A [R Ld]]].
+  exists (r_plain m). sproj. unfold rmon_run in *. cbn [mon_run]. rewrite A. cbn [rmon_step].
+  rewrite (r_alive_rel m _ _ R). cbn [alive_s]. rewrite poll_set_clients. cbn [alive_s] in Al. rewrite Al, Ld, Z.eqb_refl.
+  rewrite has_out_W by (left; exact Hw). split; [reflexivity|]. apply relRg_plain. exact R.
 Qed.
 
 Lemma CplR_callback_abolished i s :
@@ -604,7 +625,7 @@ Proof.
   - destruct (zmem i0 (estabs s)); [|eapply nocb_frame; [|exact H]; reflexivity].
     eapply nocb_frame; [|exact H]. sproj. rewrite poll_remove_clients. reflexivity.
   - (* AWrite *) destruct (live_client i0 s) as [c|] eqn:E0; [apply live_client_some in E0; destruct E0 as [E Er]|eapply nocb_frame; [|exact H]; reflexivity].
-    destruct (n <? 1); [eapply nocb_frame; [|exact H]; reflexivity|].
+    destruct (n <? 0); [eapply nocb_frame; [|exact H]; reflexivity|].
     assert (i0 = i -> c_cb c = false) as K by (intros ->; congruence).
     destruct (c_back c =? 0).
     + cbn zeta. destruct (failed_io _).
@@ -745,19 +766,25 @@ Proof.
       set (s2 := upd_client i (mkCl (c_cb c) (c_back c - Z.max 0 r) (c_susp c) (c_rm c)) s1) in *.
       destruct (c_back c - Z.max 0 r =? 0).
       * set (f' := if c_susp c then fl_none else fl_R).
-        apply CplR_callback_write.
+        apply (CplR_set_write i g).
         -- apply SInv_poll_set; [exact HI2|]. cbn [sock_ok]. split; [|subst f'; destruct (c_susp c); split; reflexivity].
            subst s2. unfold upd_client. sproj. rewrite keys_aset_in by (try apply zeq; exact Hi). exact Hi.
-        -- cbn [alive_s]. rewrite poll_set_clients. exact Al2.
-        -- apply poll_set_reg.
-        -- apply CplR_poll_set; [exact Al2 | subst f'; destruct (c_susp c); reflexivity | exact H2].
+        -- exact Al2.
+        -- exact Eg.
+        -- exact Hw.
+        -- subst f'; destruct (c_susp c); reflexivity.
+        -- subst f'; destruct (c_susp c); reflexivity.
+        -- exact H2.
       * destruct ar; [|exact H2]. apply (CplR_callback_read i g); [exact HI2 | exact Al2 | exact Eg | apply Hr; reflexivity | exact H2].
   - cbn zeta. set (f' := if c_susp c then fl_none else fl_R).
-    apply CplR_callback_write.
+    apply (CplR_set_write i g).
     + apply SInv_poll_set; [exact HI|]. cbn [sock_ok]. split; [exact Hi | subst f'; destruct (c_susp c); split; reflexivity].
-    + cbn [alive_s]. rewrite poll_set_clients. exact Al.
-    + apply poll_set_reg.
-    + apply CplR_poll_set; [exact Al | subst f'; destruct (c_susp c); reflexivity | exact H].
+    + exact Al.
+    + exact Eg.
+    + exact Hw.
+    + subst f'; destruct (c_susp c); reflexivity.
+    + subst f'; destruct (c_susp c); reflexivity.
+    + exact H.
 Qed.
 
 Lemma CplR_dispatch e f g s :
